@@ -46,10 +46,25 @@ def _need(cond, msg):
 
 
 def _enum(E, v):
-    try:
-        return E(v)
-    except ValueError:
-        return v
+    """the member an application writes for the code `v`: the member of E with the STANDARD NAME of the code
+    (core.std_member); the IntEnum member of that value / the plain int for codes without a standard name, as before"""
+    return core.std_member(E, v)
+
+
+_code = core.std_code    # int(code read back), after `code == E.NAME  <=>  it is the standard's code for NAME`
+
+
+def _msg_type(code):
+    """the message type an application passes to ReservedCfdpMessage for the code `code` of table 6-1: the member of
+    ProxyMessageType / DirectoryOperationMessageType with the standard name of the code, the module constant
+    ORIGINATING_TRANSACTION_ID_MSG_TYPE_ID for 0x0A (fetched by name), the plain int for every other code"""
+    if isinstance(code, int) and not isinstance(code, bool):
+        for E in (ProxyMessageType, DirectoryOperationMessageType):
+            if code in core.std_table(E).values():
+                return core.std_member(E, code)
+        if code == ORIG_TYPE:
+            return core.std_constant(tlvmod, "ORIGINATING_TRANSACTION_ID_MSG_TYPE_ID", code)
+    return code
 
 
 def _field(a, pfx) -> UnsignedByteField:
@@ -84,7 +99,8 @@ def _g_put_resp(r):
     p = r.get_proxy_put_response_params()
     if p is None:
         return None
-    return {"cc": int(p.condition_code), "dc": int(p.delivery_code), "fs": int(p.file_status)}
+    return {"cc": _code(ConditionCode, p.condition_code), "dc": _code(DeliveryCode, p.delivery_code),
+            "fs": _code(FileStatus, p.file_status)}
 
 
 def _g_closure(r):
@@ -94,7 +110,7 @@ def _g_closure(r):
 
 def _g_tx_mode(r):
     x = r.get_proxy_transmission_mode()
-    return None if x is None else int(x)
+    return None if x is None else _code(TransmissionMode, x)
 
 
 def _dirp(p):
@@ -127,6 +143,10 @@ def _opt_int(x):
     return None if x is None else int(x)
 
 
+def _opt_code(E, x):
+    return None if x is None else _code(E, x)
+
+
 def _classify(r) -> Dict[str, Any]:
     _need(isinstance(r, ReservedCfdpMessage), "not a ReservedCfdpMessage")
     return {
@@ -134,11 +154,11 @@ def _classify(r) -> Dict[str, Any]:
         "is_proxy": bool(r.is_cfdp_proxy_operation()),
         "is_dir": bool(r.is_directory_operation()),
         "is_orig": bool(r.is_originating_transaction_id()),
-        "proxy_type": _opt_int(r.get_cfdp_proxy_message_type()),
-        "dir_type": _opt_int(r.get_directory_operation_type()),
+        "proxy_type": _opt_code(ProxyMessageType, r.get_cfdp_proxy_message_type()),
+        "dir_type": _opt_code(DirectoryOperationMessageType, r.get_directory_operation_type()),
         "value": hx(r.value),
         "packet_len": int(r.packet_len),
-        "tlv_type": int(r.tlv_type),
+        "tlv_type": _code(TlvType, r.tlv_type),
     }
 
 
@@ -151,7 +171,7 @@ def _view(r) -> Dict[str, Any]:
 
 def _tlv_view(t) -> Dict[str, Any]:
     """type, value and length of a TLV object (all its state) for the isolation probe"""
-    return {"type": int(t.tlv_type), "value": hx(t.value), "packet_len": int(t.packet_len)}
+    return {"type": _code(TlvType, t.tlv_type), "value": hx(t.value), "packet_len": int(t.packet_len)}
 
 
 def _msg_to_user(raw: bytes) -> MessageToUserTlv:
@@ -345,7 +365,7 @@ def op_view(a):
 
 
 def op_new(a):
-    r = ReservedCfdpMessage(a["msg_type"], unhx(a["value"]))
+    r = ReservedCfdpMessage(_msg_type(a["msg_type"]), unhx(a["value"]))
     raw = core.pack_stable(r, "ReservedCfdpMessage.pack()")
     _need(len(raw) == r.packet_len, "len(pack()) != packet_len")
     return {"raw": hx(raw), **_classify(r)}
@@ -650,6 +670,9 @@ class C18(Prop):
             d.append("TransmissionMode members")
         if int(TlvType.MESSAGE_TO_USER) != 2 or int(MessageToUserTlv.TLV_TYPE) != 2:
             d.append("TlvType.MESSAGE_TO_USER")
+        # every member the ops use BY NAME against the tables of the standard (a swap leaves the set of values intact)
+        d += core.std_table_diffs((ProxyMessageType, DirectoryOperationMessageType, ConditionCode, DeliveryCode, FileStatus,
+                                   TransmissionMode, TlvType))
         if bytes(tlvmod.create_cfdp_proxy_and_dir_op_message_marker()) != MARKER:
             d.append("cfdp marker")
         return d
